@@ -220,7 +220,7 @@ package container
 // What a creation (creating callback, early-reference callback, and every registry operation that may run one) is
 // allowed to touch besides the registry's own caches: injection-point candidate lists and tag values, dependents,
 // memory behind settable fields, lifecycle / narrowing ghost state. A-CALLBACK: user callbacks stay inside this frame.
-//@ frame CreationFrame() = ShortCircuit, Wrapped, anyfield(component_definition.Property, Injects), anyfield(component_definition.Property, TagVal), anyfield(component_definition.Meta, Dependent), anyfield(sync2.Map[string, struct{}], Dom), anyfield(sync2.Map[string, struct{}], Val), RMem, RTop, FilterSrc, FilterPos, MetasPos, PosSnap, allmaps(map[string]any), St, BeforeLen, BeforeAt, AfterLen, AfterAt, ApsCalls, InitCalls, CurName, Failed
+//@ frame CreationFrame() = ShortCircuit, Wrapped, anyfield(component_definition.Property, Injects), anyfield(component_definition.Property, TagVal), anyfield(component_definition.Meta, Dependent), anyfield(sync2.Map[string, struct{}], Dom), anyfield(sync2.Map[string, struct{}], Val), RMem, RTop, FilterSrc, FilterPos, MetasPos, PosSnap, allmaps(map[string]any), ElLastInput, St, BeforeLen, BeforeAt, AfterLen, AfterAt, ApsCalls, InitCalls, CurName, Failed
 //@ frame RegFrame(r) = r.L1Dom, r.L1, r.L2Dom, r.L2, r.L3Dom, r.L3, r.IC, r.EarlyRuns, r.Creates, r.HasHole, r.Hole
 
 // ---- instantiation-aware processors (C05, C09, C18): all three run before the component's initialization ---------
